@@ -1,1 +1,219 @@
-// placeholder
+//! K-SUBRANGE (C10, C01): inductive step for the `unsafe` `SubRange` behind `EndianReader` (DESIGN.md 6 C10, probe P23).
+//!
+//! Invariant I(r): `r` is the window [off, off+len) of its shared buffer, `off + len <= buffer length`
+//! (`SubRange.ptr == bytes.as_ptr() + off`, `SubRange.len == len`).
+//! Base: `EndianReader::new(buf)` is the window [0, buf.len()).
+//! Step (these harnesses): from an ARBITRARY state satisfying I — every such state is `new(buf).range(s..s+n)` for
+//! some s, n with s + n <= buf.len(), which is how the harness builds it — apply ONE arbitrary operation with
+//! arbitrary arguments.  Checked: (1) CBMC's pointer checks on every `ptr.add` / `slice::from_raw_parts` of the real
+//! unsafe code (no out-of-allocation pointer, no dangling dereference), (2) I holds again for the reader and for every
+//! reader the operation hands back, at exactly the expected window, (3) results and remaining bytes equal those of the
+//! borrowed `EndianSlice` on the same window (reader kinds agree), (4) the bytes stay readable after clone + drop of the
+//! original / of the clone / of the section reader in either order.
+//! Complete in the operation and its arguments; bounded in the buffer length (16 bytes, `Rc<[u8]>`; thorough tier:
+//! 32 bytes, `Arc<[u8]>`).  `Rc`/`Arc` themselves are dependencies (their code is executed by CBMC here, but no claim
+//! is made about them beyond these runs).
+use crate::eslice::any_endian;
+use gimli::{EndianReader, EndianSlice, Error, Reader, ReaderOffsetId, RunTimeEndian};
+use std::rc::Rc;
+use std::sync::Arc;
+
+type ER<T> = EndianReader<RunTimeEndian, T>;
+
+/// I(r) at an expected window: r is exactly [off, off+len) of base's buffer
+macro_rules! inv {
+    ($r:expr, $base:expr, $l:expr, $off:expr, $len:expr) => {{
+        let off: usize = $off;
+        let len: usize = $len;
+        assert!(off <= $l && len <= $l - off);
+        assert!($r.len() == len);
+        assert!($r.bytes().len() == len);
+        assert!($r.offset_from(&$base) == off);
+        assert!($r.bytes().as_ptr() == $base.bytes().as_ptr().wrapping_add(off));
+    }};
+}
+
+macro_rules! step {
+    ($name:ident, $l:expr, $unwind:expr, $ptr:ident, $ops:expr) => {
+        #[kani::proof]
+        #[kani::unwind($unwind)]
+        fn $name() {
+            const L: usize = $l;
+            let data: [u8; L] = kani::any();
+            let e = any_endian();
+            let buf: $ptr<[u8]> = $ptr::from(&data[..]);
+            let s: usize = kani::any();
+            let n: usize = kani::any();
+            kani::assume(s <= L && n <= L - s);
+            let base: ER<$ptr<[u8]>> = EndianReader::new(buf, e);
+            inv!(base, base, L, 0, L);
+            let mut r = base.range(s..s + n);
+            let mut m = EndianSlice::new(&data[s..s + n], e);
+            inv!(r, base, L, s, n);
+            assert!(r.bytes() == m.slice());
+            let arg: usize = kani::any();
+            let op: u8 = kani::any();
+            kani::assume(op < 5);
+            // expected window after the operation
+            let (mut off2, mut len2) = (s, n);
+            match $ops * 5 + op {
+                0 => {
+                    let a = r.skip(arg);
+                    let b = m.skip(arg);
+                    assert!(a.is_ok() == b.is_ok() && a.is_ok() == (arg <= n));
+                    if a.is_ok() {
+                        off2 = s + arg;
+                        len2 = n - arg;
+                    }
+                }
+                1 => {
+                    let a = r.truncate(arg);
+                    let b = m.truncate(arg);
+                    assert!(a.is_ok() == b.is_ok() && a.is_ok() == (arg <= n));
+                    if a.is_ok() {
+                        len2 = arg;
+                    }
+                }
+                2 => {
+                    let a = r.split(arg);
+                    let b = m.split(arg);
+                    assert!(a.is_ok() == b.is_ok() && a.is_ok() == (arg <= n));
+                    if let (Ok(a), Ok(b)) = (a, b) {
+                        assert!(a.bytes() == b.slice());
+                        inv!(a, base, L, s, arg);
+                        off2 = s + arg;
+                        len2 = n - arg;
+                        // the head outlives the reader it was split from
+                        if kani::any() {
+                            drop(r);
+                            assert!(a.bytes() == b.slice());
+                            return;
+                        }
+                    }
+                }
+                3 => {
+                    r.empty();
+                    m.empty();
+                    assert!(r.is_empty());
+                    len2 = 0;
+                }
+                4 => {
+                    let a = r.read_u32();
+                    let b = m.read_u32();
+                    assert!(a.is_ok() == (n >= 4));
+                    match (a, b) {
+                        (Ok(a), Ok(b)) => {
+                            assert!(a == b);
+                            off2 = s + 4;
+                            len2 = n - 4;
+                        }
+                        (Err(_), Err(_)) => {}
+                        _ => assert!(false),
+                    }
+                }
+                5 => {
+                    // read_slice(buf) with a symbolic length 0..=9
+                    let k = arg;
+                    kani::assume(k <= 9);
+                    let mut b1 = [0u8; 9];
+                    let mut b2 = [0u8; 9];
+                    let a = r.read_slice(&mut b1[..k]);
+                    let b = m.read_slice(&mut b2[..k]);
+                    assert!(a.is_ok() == b.is_ok() && a.is_ok() == (k <= n));
+                    if a.is_ok() {
+                        assert!(b1[..k] == data[s..s + k]);
+                        off2 = s + k;
+                        len2 = n - k;
+                    }
+                }
+                6 => {
+                    let byte = arg as u8;
+                    let a = r.find(byte);
+                    let b = Reader::find(&m, byte);
+                    match (a, b) {
+                        (Ok(i), Ok(j)) => {
+                            assert!(i == j && i < n && data[s + i] == byte);
+                        }
+                        (Err(Error::UnexpectedEof(id)), Err(_)) => {
+                            assert!(base.lookup_offset_id(id) == Some(s));
+                        }
+                        _ => assert!(false),
+                    }
+                }
+                7 => {
+                    // offset ids: round trip through the section reader, through the reader itself, and for arbitrary ids
+                    let id = r.offset_id();
+                    assert!(base.lookup_offset_id(id) == Some(s));
+                    assert!(r.lookup_offset_id(id) == Some(0));
+                    let x = arg as u64;
+                    let start = r.bytes().as_ptr() as u64;
+                    match r.lookup_offset_id(ReaderOffsetId(x)) {
+                        Some(k) => assert!(k <= n && x == start + k as u64),
+                        None => assert!(x < start || x > start + n as u64),
+                    }
+                }
+                8 => {
+                    // a window of the window (range / range_from / range_to) and offset_from between windows
+                    let s2 = arg;
+                    let n2: usize = kani::any();
+                    kani::assume(s2 <= n && n2 <= n - s2);
+                    let w = r.range(s2..s2 + n2);
+                    inv!(w, base, L, s + s2, n2);
+                    assert!(w.offset_from(&r) == s2);
+                    assert!(w.bytes() == m.range(s2..s2 + n2).slice());
+                    let f = r.range_from(s2..);
+                    inv!(f, base, L, s + s2, n - s2);
+                    let t = r.range_to(..s2);
+                    inv!(t, base, L, s, s2);
+                    drop(r);
+                    assert!(w.bytes() == m.range(s2..s2 + n2).slice());
+                    return;
+                }
+                _ => {
+                    // read_null_terminated_slice = find + split + skip
+                    let a = r.read_null_terminated_slice();
+                    let b = m.read_null_terminated_slice();
+                    assert!(a.is_ok() == b.is_ok());
+                    if let (Ok(a), Ok(b)) = (a, b) {
+                        assert!(a.bytes() == b.slice());
+                        let i = a.len();
+                        inv!(a, base, L, s, i);
+                        off2 = s + i + 1;
+                        len2 = n - i - 1;
+                    }
+                }
+            }
+            // I re-established at exactly the expected window; same remaining bytes as the borrowed reader
+            inv!(r, base, L, off2, len2);
+            assert!(r.bytes() == m.slice());
+            // clone + drop, both orders; the section reader may go first
+            let c = r.clone();
+            assert!(c == r);
+            let which: u8 = kani::any();
+            match which % 3 {
+                0 => {
+                    drop(r);
+                    drop(base);
+                    assert!(c.bytes() == m.slice());
+                }
+                1 => {
+                    drop(c);
+                    drop(base);
+                    assert!(r.bytes() == m.slice());
+                }
+                _ => {
+                    drop(base);
+                    assert!(r.bytes() == m.slice());
+                    drop(r);
+                    assert!(c.bytes() == m.slice());
+                }
+            }
+        }
+    };
+}
+
+// ops 0..5: skip / truncate / split / empty / read_u32 ; ops 5..10: read_slice / find / offset ids / sub-windows / null-terminated
+step!(k_subrange_step_rc16_cursor, 16, 20, Rc, 0);
+step!(k_subrange_step_rc16_views, 16, 20, Rc, 1);
+step!(k_subrange_step_arc32_cursor, 32, 36, Arc, 0);
+step!(k_subrange_step_arc32_views, 32, 36, Arc, 1);
